@@ -212,6 +212,9 @@ def status_remap(ck, f):
 def run_c09(ck, fb, fbd):
     c = Ctx(ck, fb)
     cores = delete_cores(c)
+    # an index swap relabels the per-halfedge lists in place: relabelling a shared list twice leaves the old order (shared with C17)
+    from .lockstep import relabel_rules
+    relabel_rules(c)
     cm = c.cm
     ck.rule("C09.trigger", "reorder_incident_halffaces(e) is called for the affected edges in add_cell, delete_face_core (after the unlink), delete_cell_core (after the incident-cell reset) and in enable_edge/face_bottom_up_incidences - in every deletion mode (no deferred/fast condition), exactly when both the edge and the face kind are available")
     ck.rule("C09.walk", "inside reorder_incident_halffaces the forward walk appends and steps with adjacent_halfface_in_cell + opposite_halfface_handle along the halfedge, the backward walk uses the opposite halfedge and prepends (front insertion / reverse range), both walks abort when they outgrow the stored list, and the ordered list is written back together with its mirrored reverse for the opposite halfedge")
